@@ -5,7 +5,9 @@ Modes of a case:
             versions (0,11) (0,18) 7 10 11 18 20 21), decoded into its tnetstring records, optionally with field-level
             mutations that keep the historical shape (request/response body, path, method, port, host, header values,
             status, reason, client address/timestamp, TCP/WebSocket message contents, and for formats <= 8 the per-message
-            replay markers request.is_replay / response.is_replay in all four combinations), re-encoded and loaded.
+            replay markers request.is_replay / response.is_replay in all four combinations, and falsy-but-present boundary
+            values 0 / 0.0 / b"" / [] / {} / False for timestamps, port, status, bodies, header lists, marker, metadata),
+            re-encoded and loaded.
             Oracle: loading succeeds; one flow per record, in order; every flow is a *valid* current flow (each attribute
             has its declared type — flowgen.type_errors); every mutated field shows up at the corresponding attribute of the
             corresponding flow; Flow.from_state(get_state()).get_state() == get_state(); save -> load reproduces the state.
@@ -91,6 +93,28 @@ def _load(data):
 
 
 # ------------------------------------------------------------------------------------------------ dump mode
+# (section, key spellings across formats, attribute of the loaded flow, falsy-but-present values)
+_BOUNDARY = [
+    ("request", ("content", "body"), "content", [b""]),
+    ("request", ("path",), "path", [b""]),
+    ("request", ("method",), "method", [b""]),
+    ("request", ("port",), "port", [0]),
+    ("request", ("timestamp_start",), "timestamp_start", [0, 0.0]),
+    ("request", ("timestamp_end",), "timestamp_end", [0, 0.0]),
+    ("request", ("headers",), "headers", [[]]),
+    ("response", ("content", "body"), "content", [b""]),
+    ("response", ("reason", "msg"), "reason", [b""]),
+    ("response", ("status_code", "code"), "status_code", [0]),
+    ("response", ("timestamp_start",), "timestamp_start", [0, 0.0]),
+    ("response", ("timestamp_end",), "timestamp_end", [0, 0.0]),
+    ("response", ("headers",), "headers", [[]]),
+    ("client_conn", ("timestamp_start",), "timestamp_start", [0, 0.0]),
+    ("client_conn", ("timestamp_end",), "timestamp_end", [0, 0.0]),
+    ("flow", ("marked",), "marked", [""]),
+    ("flow", ("metadata",), "metadata", [{}]),
+    ("flow", ("intercepted",), "intercepted", [False]),
+    ("response", ("timestamp_start",), "timestamp_start", [0, 0.0]),
+]
 def _apply_dump_mut(recs, op, expect):
     """mutate one record in place, keeping its shape; append (flow index, description, getter, value) to expect"""
     i = op[1] % len(recs)
@@ -136,6 +160,55 @@ def _apply_dump_mut(recs, op, expect):
             else:
                 expect.append((i, "response." + attr, lambda f: getattr(f.response.data, attr), val))
         return True
+    if what == "boundary":
+        # a PRESENT value that happens to be falsy (0, 0.0, b"", "", [], False) must survive migration like any other
+        # value: it is not the same as None / a missing key
+        sect, names, attr, values = _BOUNDARY[op[2] % len(_BOUNDARY)]
+        val = values[op[3] % len(values)]
+        if sect in ("request", "response"):
+            if typ != "http":
+                return False
+            m = _get(r, sect)
+            if not isinstance(m, dict):
+                return False
+            key = next((_k(m, n) for n in names if _k(m, n) is not None), None)
+            if key is None:
+                return False
+            if sect == "response" and attr == "timestamp_end" and _get(m, "timestamp_start") is None:
+                # formats <= 13 may lack response timestamps altogether (mitmproxy issue 4576); migration then
+                # invents both, so a lone timestamp_end next to a missing timestamp_start is not a realistic record
+                return False
+            m[key] = copy.deepcopy(val)
+            if attr == "headers":
+                expect.append((i, sect + ".headers(all)", lambda f: [list(x) for x in getattr(f, sect).headers.fields], []))
+            else:
+                expect.append((i, "%s.%s" % (sect, attr), lambda f: getattr(getattr(f, sect).data, attr), val))
+            return True
+        if sect == "client_conn":
+            if typ == "websocket":
+                return False
+            cc = _get(r, "client_conn")
+            key = _k(cc, names[0]) if isinstance(cc, dict) else None
+            if key is None:
+                return False
+            cc[key] = val
+            expect.append((i, "client_conn." + attr, lambda f: getattr(f.client_conn, attr), val))
+            return True
+        if sect == "flow":
+            if typ == "websocket":
+                return False
+            key = _k(r, names[0])
+            if key is None:
+                return False
+            if names[0] == "marked":
+                # formats <= 12 store a bool, later ones the marker text; "not marked" must stay "not marked"
+                r[key] = False if isinstance(r[key], bool) else ""
+                expect.append((i, "marked", lambda f: f.marked, ""))
+            else:
+                r[key] = copy.deepcopy(val)
+                expect.append((i, attr, lambda f: getattr(f, attr), val))
+            return True
+        raise HarnessError("bad boundary table entry %r" % (sect,))
     if what == "replay":
         # formats <= 8 mark replays per message: request.is_replay (the request was re-sent by client replay) and
         # response.is_replay (the response was served by server replay).  The current format has one flow-level
@@ -448,6 +521,9 @@ _dump_mut = st.one_of(
     st.tuples(st.just("msg"), _rec, st.integers(0, 30), st.binary(max_size=12).filter(lambda b: True)),
     st.tuples(st.just("replay"), _rec, st.booleans(), st.booleans()),
     st.tuples(st.just("replay"), _rec, st.booleans(), st.booleans()),
+    st.tuples(st.just("boundary"), _rec, st.integers(0, 18), st.integers(0, 1)),
+    st.tuples(st.just("boundary"), _rec, st.integers(0, 18), st.integers(0, 1)),
+    st.tuples(st.just("boundary"), _rec, st.integers(0, 18), st.integers(0, 1)),
 ).map(list)
 _flags = st.fixed_dictionaries({"state": st.sampled_from([0, 3]), "ext_list": st.booleans(), "drop_transport": st.booleans(),
                                 "sni_true": st.booleans(), "bytes_host": st.booleans(), "drop_backup": st.booleans(),
@@ -465,11 +541,15 @@ def strategy(ctx):
     replay = st.tuples(st.just("replay"), _rec, st.booleans(), st.booleans()).map(list)
     dump_replay = st.fixed_dictionaries({"mode": st.just("dump"), "file": st.sampled_from([0, 1, 2, 3]),
                                          "muts": st.tuples(replay, st.lists(_dump_mut, max_size=2)).map(lambda t: [t[0]] + t[1])})
+    # falsy-but-present boundary values on the old dumps (one or two per case, plus other mutations)
+    boundary = st.tuples(st.just("boundary"), _rec, st.integers(0, len(_BOUNDARY) - 1), st.integers(0, 1)).map(list)
+    dump_boundary = st.fixed_dictionaries({"mode": st.just("dump"), "file": st.sampled_from([0, 1, 3, 4, 5, 6, 2]),
+                                           "muts": st.tuples(st.lists(boundary, min_size=1, max_size=2), st.lists(_dump_mut, max_size=2)).map(lambda t: t[0] + t[1])})
     down_old = st.fixed_dictionaries({"mode": st.just("down"), "flow": old_kinds, "version": st.sampled_from([12, 13, 14, 15, 16, 17]), "flags": _flags})
     down_new = st.fixed_dictionaries({"mode": st.just("down"), "flow": all_kinds, "version": st.sampled_from([18, 19, 20, 21]), "flags": _flags})
     future = st.fixed_dictionaries({"mode": st.just("future"), "flow": fg.flows(small=True, backup=False, pool=pool),
                                     "version": st.one_of(st.integers(22, 40), st.sampled_from([100, 10 ** 6, 2 ** 70, 0, 1, 2, 3, -1, -21]))})
-    return st.one_of(dump, dump, dump_replay, down_old, down_old, down_new, down_new, future)
+    return st.one_of(dump, dump, dump_replay, dump_boundary, down_old, down_old, down_new, down_new, future)
 
 
 def check_case(case, ctx):
